@@ -146,7 +146,15 @@ def make_config(seed, tier="quick"):
     cfg["host"] = host
     if host == "pair":
         cfg["charset"] = r.choice(["ascii", "latin1", "bmp", "astral", "latin1", "bmp"])
-        cfg["payload_law"] = r.choice(["small", "small", "medium", "big"])
+        cfg["payload_law"] = r.choice(["small", "small", "medium", "big", "huge"])
+        if cfg["payload_law"] == "huge":
+            # frames above 64 KiB written while other tasks of the same connection send: back-pressure on,
+            # short heartbeat interval, few sends (the frames are expensive)
+            cfg["p_pause"] = r.choice([0.3, 0.6, 0.9])
+            cfg["hb"] = r.choice([1, 2, 3])
+            cfg["n_sends_a"] = min(cfg["n_sends_a"], 4)
+            cfg["n_sends_b"] = min(cfg["n_sends_b"], 4)
+            cfg["max_handles"] = 600_000
     return cfg
 
 
